@@ -863,6 +863,8 @@ class Exec(object):
         if opq:
             # nodes downstream of a node frozen without a read are not comparable; with 'fail' one of them may legitimately raise
             self.res.bump("read_not_compared_opaque_frozen_input")
+            if any(n.kind == "B" and n.alive and gs.depends_on_opaque(n.id) for n in g.nodes.values()):
+                g.events.add("fallback_after_failed_alternative")  # a fallback may have skipped an alternative during this unjudged read
             b0 = self.snapshot_counts()
             try:
                 self.nexus.get_value_dict(error_behavior="ignore")
